@@ -803,6 +803,8 @@ func Build(rec *Recorder, n *Node, validate bool) z.ZogSchema {
 				return asciiUpper(s), nil
 			case "trim":
 				return strings.Trim(s, " "), nil
+			case "blank":
+				return "", nil // ("n/a" and the like mapped to nothing: the wrapped schema decides what an absent value means)
 			case "err":
 				return "", errors.New("pre error")
 			case "issue":
